@@ -4,7 +4,6 @@ import (
 	"context"
 
 	utils "github.com/ExocoreNetwork/exocore/utils"
-	"github.com/ExocoreNetwork/exocore/x/oracle/keeper/cache"
 	"github.com/ExocoreNetwork/exocore/x/oracle/types"
 	sdk "github.com/cosmos/cosmos-sdk/types"
 	govtypes "github.com/cosmos/cosmos-sdk/x/gov/types"
@@ -64,9 +63,8 @@ func (ms msgServer) UpdateParams(goCtx context.Context, msg *types.MsgUpdatePara
 	if err = p.Validate(); err != nil {
 		return nil, err
 	}
-	// set updated new params
+	// set updated new params; the oracle's EndBlock picks the change up from the store (a copy
+	// cached here would survive a later message of the same transaction failing)
 	ms.SetParams(ctx, p)
-	_ = GetAggregatorContext(ctx, ms.Keeper)
-	cs.AddCache(cache.ItemP(p))
 	return &types.MsgUpdateParamsResponse{}, nil
 }
